@@ -1,8 +1,9 @@
 CONSTANTS
   Configs <- TierConfigs
   Tier = "quick"
-  CyclesFromEveryNode = FALSE
-  RefDepthChecked = FALSE
+  CyclesFromEveryNode = TRUE
+  RefDepthChecked = TRUE
+  ExitLinked = TRUE
   StopAfterAnswer = FALSE
   ResumeAllEdges = FALSE
   StepCap = 600
